@@ -8,7 +8,8 @@ LEVEL = ("Mechanism level: placeholder discipline (every StateInserter::from_kee
          "PositionsTracker::len, the four lore-ctor recorders, into_subtrace_lore emits exactly [before, after], the "
          "ctor state chain and finish()), stub generations are always paired with a New-generation append and compactify "
          "runs before data is produced, and update_generation rewrites exactly Ap and Executed(Stream) states. That sizes "
-         "exactly cover for all nestings is NOT decided.")
+         "exactly cover for all nestings is NOT decided."
+         " Added: the instance popped at scope end is the one compactified; the lore-constructor queue finishes every queued constructor unconditionally.")
 
 
 def check(ctx):
